@@ -11,6 +11,8 @@ def jobs(tier):
         Job("c20_dtx", "flt-asan", "random", workers=W, cases=120 if q else 600, maxtime=60 if q else 500),
         # the DTX clauses are timing/size/energy oracles: the optimised build buys schedule diversity (other seed stream)
         Job("c20_dtx", "flt-opt", "random", workers=W, cases=240 if q else 1500, maxtime=60 if q else 400, seed_salt=7),
+        # fixed-point build: its own digital-silence test and speech-layer front end
+        Job("c20_dtx", "fix-asan", "random", workers=W, cases=60 if q else 400, maxtime=60 if q else 400, seed_salt=29),
     ]
 
 
